@@ -194,6 +194,16 @@ func (c04) Gen(r *rand.Rand, tier string, run int) *core.Case {
 			}
 			c.Ops = append(c.Ops, core.Op{Kind: "raw", Actor: 100, X: int64(typ), Y: int64(act), S: pay})
 		}
+		// the methods every object has without having declared them
+		// (registerEvent, unregisterEvent) and the one method of service zero
+		// (authenticate), which are written by hand: same rules
+		for i := 0; i < r.IntN(4); i++ {
+			typ := 1 + r.IntN(8)
+			if r.IntN(2) == 0 {
+				typ = ref.Post
+			}
+			c.Ops = append(c.Ops, core.Op{Kind: "raw", Actor: 100, X: int64(typ), Y: int64(r.IntN(2)), S: []string{"reg", "unreg", "auth"}[r.IntN(3)]})
+		}
 	}
 	return c
 }
@@ -460,9 +470,25 @@ func c04raws(env *core.Env, st *c04state, ops []core.Op) {
 			payload = ref.EncodeToken(tok)
 			key = tok.Key()
 		}
-		rec := c04raw{id: id, typ: uint8(op.X), act: uint32(op.Y), key: key, pay: op.S}
-		h := env.Invoke(100, "raw-"+ref.TypeName(uint8(op.X)), fmt.Sprintf("a%d id%d %s %s", op.Y, id, op.S, key))
-		err := raw.Send(ref.NewFrame(uint8(op.X), w.ServiceID, 1, uint32(op.Y), id, payload))
+		svc, obj, act := w.ServiceID, uint32(1), uint32(op.Y)
+		switch op.S {
+		case "reg", "unreg":
+			// well-formed (un)registration of the raw peer for a signal
+			var b ref.Buf
+			b.U32(1)
+			b.U32([]uint32{SigTick, SigTock}[op.Y%2])
+			b.U64(uint64(4000 + i))
+			payload, act = b.Bytes(), 0
+			if op.S == "unreg" {
+				act = 1
+			}
+		case "auth":
+			svc, obj, act = 0, 0, 8
+			payload = ref.AuthPayload("u", "p")
+		}
+		rec := c04raw{id: id, typ: uint8(op.X), act: act, key: key, pay: op.S}
+		h := env.Invoke(100, "raw-"+ref.TypeName(uint8(op.X)), fmt.Sprintf("a%d id%d %s %s", act, id, op.S, key))
+		err := raw.Send(ref.NewFrame(uint8(op.X), svc, obj, act, id, payload))
 		rec.sent = err == nil
 		st.rawSent = append(st.rawSent, rec)
 		out := ""
@@ -632,9 +658,13 @@ func (c04) Check(c *core.Case, env *core.Env, res zzsim.Result, v *core.Verdict)
 	if st.raw != nil {
 		frames := st.raw.Frames()
 		resp := map[uint32]int{}
+		replies := map[uint32]int{}
 		for _, f := range frames {
 			if f.F.Type == ref.Reply || f.F.Type == ref.Error {
 				resp[f.F.ID]++
+			}
+			if f.F.Type == ref.Reply {
+				replies[f.F.ID]++
 			}
 		}
 		for _, rf := range st.rawSent {
@@ -649,6 +679,15 @@ func (c04) Check(c *core.Case, env *core.Env, res zzsim.Result, v *core.Verdict)
 			if rf.key == "" {
 				n = 0
 			}
+			// a registration that took effect is told, with an Error message
+			// carrying the registration's own id, when its object goes away:
+			// that is not an answer to the registration
+			notice := 0
+			if rf.pay == "reg" && c.P("doomed_obj", -1) >= 0 && resp[rf.id]-replies[rf.id] > 0 && (rf.typ == ref.Post || replies[rf.id] == 1) {
+				notice = 1
+				env.Probe("termination-notice-to-the-raw-subscriber")
+			}
+			resp[rf.id] -= notice
 			switch rf.typ {
 			case ref.Call:
 				if n > 1 {
@@ -661,10 +700,14 @@ func (c04) Check(c *core.Case, env *core.Env, res zzsim.Result, v *core.Verdict)
 				if n > 1 {
 					bad("exec-count/more-than-once", "raw post id %d ran its method %d times", rf.id, n)
 				}
-				if resp[rf.id] != 0 && rf.pay == "valid" {
-					bad("answers/post-answered", "raw post id %d (action %d) got %d reply/error frames", rf.id, rf.act, resp[rf.id])
+				if resp[rf.id] != 0 && rf.pay != "empty" {
+					bad("answers/post-answered", "raw post id %d (action %d, %s) got %d reply/error frames", rf.id, rf.act, rf.pay, resp[rf.id])
 				}
 			default:
+				if replies[rf.id] > 0 && (rf.pay == "reg" || rf.pay == "unreg" || rf.pay == "auth") {
+					// the result of the method came back: it ran
+					bad("exec/"+ref.TypeName(rf.typ)+"-frame-ran-method", "a %s frame (id %d, action %d, %s) was answered with the result of the method", ref.TypeName(rf.typ), rf.id, rf.act, rf.pay)
+				}
 				if n > 0 {
 					bad("exec/"+ref.TypeName(rf.typ)+"-frame-ran-method", "a %s frame (id %d, action %d) made the method body run %d times", ref.TypeName(rf.typ), rf.id, rf.act, n)
 				}
